@@ -43,6 +43,23 @@ def acc_clauses(st):
             ("I-acc.nonneg", z3.And(*[f[TT + s_].t >= 0 for s_ in STATES4]))]
 
 
+def act_clauses(st):
+    """C17, second sentence, for Splitter/Combiner (work_capacity is 1, so at most one worker is alive): the node state
+    reflects what the live worker is doing -- PROCESSING while it processes, BLOCKED while it holds a finished unit it
+    cannot deliver, IDLE (or still SETUP) when there is none"""
+    from contracts.nodes_sl import _ts
+    L = st.f["worker_thread_list"]
+    w0 = L.at(z3.IntVal(0)).t
+    stt = st.f["state"].t
+    return [("I-act.one-worker-slot", z3.And(st.f["work_capacity"].t == 1, L.len >= 0, L.len <= 1)),
+            ("I-act.no-worker-during-set-up", z3.Implies(stt == sc("SETUP_STATE"), L.len == 0)),
+            ("I-act.no-worker-means-idle-or-setup", z3.Implies(L.len == 0, z3.Or(stt == sc("IDLE_STATE"), stt == sc("SETUP_STATE")))),
+            ("I-act.processing-worker-means-PROCESSING", z3.Implies(z3.And(L.len == 1, _ts(st, w0) == sc("PROCESSING_STATE")),
+                                                                    stt == sc("PROCESSING_STATE"))),
+            ("I-act.blocked-worker-means-BLOCKED", z3.Implies(z3.And(L.len == 1, _ts(st, w0) == sc("BLOCKED_STATE")),
+                                                              stt == sc("BLOCKED_STATE")))]
+
+
 def acc_ok(st):
     return z3.And(*[cl for _, cl in acc_clauses(st)])
 
@@ -89,6 +106,8 @@ def mk_state_check(lib, cls, name):
         Clause("state-known", lambda c: state_known(c.new), ("C17",)),
         Clause("no-live-worker-means-idle", lambda c: z3.Implies(c.old.f["worker_thread_list"].len == 0,
                                                                   c.new.f["state"].t == sc("IDLE_STATE")), ("C17",)),
+        Clause("state-reflects-the-live-worker", lambda c: z3.Implies(
+            c.old.f["work_capacity"].t == 1, z3.And(*[cl for nm, cl in act_clauses(c.new)[1:]])), ("C17",)),
         Clause("accounting-kept", lambda c: z3.Implies(acc_ok(c.old), z3.And(
             acc_ok(c.new), c.new.f["stats.last_state_change_time"].val.t == c.old.now)), ("C17",))],
                      pre=lambda st, args: [("state-known", state_known(st)),
@@ -112,7 +131,7 @@ def disposal_obligations(ob, st, head_f, it, blocking, waits_from=0, what="item"
     ob("non-blocking-node-never-waits-with-a-finished-item",
        z3.Implies(z3.Not(blocking), z3.Not(z3.Or(*ws)) if ws else z3.BoolVal(True)), ("C09",))
     for nm, cl in tokens_consumed_clauses(st):
-        ob(nm, cl, ("C10",))
+        ob(nm, cl, ("C10", "C08"))
     H0, H1 = head_f["stats.out_edge_selection"], st.f["stats.out_edge_selection"]
     oe = st.f["out_edges"].val
     if allputs:
@@ -124,7 +143,12 @@ def disposal_obligations(ob, st, head_f, it, blocking, waits_from=0, what="item"
 def worker_rely(lib, cls):
     def rely(st0, st1):
         g = z3.Function("wl_pos!%s" % _n(), z3.IntSort(), z3.IntSort())
-        return acc_clauses(st1) + [
+        return acc_clauses(st1) + act_clauses(st1) + [
+                # the behaviour process lists a worker (and marks it PROCESSING) before the worker takes its first step
+                # (obligation `the-worker-is-listed-and-marked-processing` on the behaviour side); a worker removes
+                # itself only after its last wait
+                ("i-am-the-listed-worker", z3.And(st1.f["worker_thread_list"].len == 1,
+                                                  st1.f["worker_thread_list"].at(z3.IntVal(0)).t == st1.active)),
                 ("state-known", state_known(st1)),
                 ("threads", z3.And(st1.f["worker_thread_list"].len >= 0, st1.f["worker_thread_list"].len <= st1.f["work_capacity"].t)),
                 ("occupancy", z3.And(st1.f["num_workers"].t >= 1, st1.f["num_workers"].t <= st1.f["work_capacity"].t,
@@ -190,12 +214,12 @@ def install(lib):
                                   props=("C20", "C15"), may=True),
                           ExcCase("TypeError", lambda c: z3.BoolVal(True), "user-index-not-a-number", unchanged=False,
                                   props=("C20",), may=True)],
-                    props=("C03", "C08", "C09", "C10", "C15", "C16", "C18", "C20"))
+                    props=("C03", "C08", "C09", "C10", "C15", "C16", "C17", "C18", "C20"))
     cw.no_frame = True
     cw.finish = comb_worker_finish
     cw.shared_fields = ACC
     cw.rely = worker_rely(lib, "Combiner")
-    cw.guarantee = acc_clauses
+    cw.guarantee = lambda st: acc_clauses(st) + act_clauses(st)
     cw.nshards = 6
     cw.slot_of = "req_token"
     cw.loops = {0: CancelLoop(lambda st: st.loc["chosen_put_event"].t), 1: ScanLoop("out_edges")}
@@ -257,12 +281,12 @@ def install(lib):
                                   props=("C20", "C15"), may=True),
                           ExcCase("TypeError", lambda c: z3.BoolVal(True), "user-index-not-a-number", unchanged=False,
                                   props=("C20",), may=True)],
-                    props=("C03", "C08", "C09", "C10", "C15", "C16", "C18", "C20"))
+                    props=("C03", "C08", "C09", "C10", "C15", "C16", "C17", "C18", "C20"))
     sw.no_frame = True
     sw.finish = split_finish
     sw.at_yield = split_at_yield
     sw.shared_fields = ACC
-    sw.guarantee = acc_clauses
+    sw.guarantee = lambda st: acc_clauses(st) + act_clauses(st)
     sw.rely = worker_rely(lib, "Splitter")
     sw.nshards = 8
     sw.slot_of = "req_token"
@@ -281,7 +305,9 @@ def install_behaviours(lib):
     def brely(st0, st1):
         k = len(st1.ghost.get("slots", []))
         cap = st1.f["work_capacity"].t
-        return acc_clauses(st1) + [
+        return acc_clauses(st1) + act_clauses(st1) + [
+                # only this process lists workers: while it waits the list can only shrink
+                ("no-new-worker-while-the-behaviour-waits", st1.f["worker_thread_list"].len <= st0.f["worker_thread_list"].len),
                 ("state-known", state_known(st1)),
                 ("K-Resource.threads-plus-own-slot-within-capacity", z3.And(
                     st1.f["worker_thread_list"].len >= 0, st1.f["worker_thread_list"].len + k <= cap)),
@@ -290,7 +316,7 @@ def install_behaviours(lib):
                                      st1.f["time_last_occupancy_change"].t <= st1.now))]
 
     def common_head(st, sides):
-        out = [(nm, cl, ("C17",)) for nm, cl in acc_clauses(st)] + [
+        out = [(nm, cl, ("C17",)) for nm, cl in acc_clauses(st) + act_clauses(st)] + [
                ("state-known", state_known(st)),
                ("threads", z3.And(st.f["worker_thread_list"].len >= 0, st.f["worker_thread_list"].len <= st.f["work_capacity"].t)),
                ("occupancy", z3.And(st.f["num_workers"].t >= 0, st.f["num_workers"].t <= st.f["work_capacity"].t,
@@ -316,6 +342,11 @@ def install_behaviours(lib):
                 out.append(("pull-happens-while-holding-a-worker-slot", z3.BoolVal(bool(st.ghost.get("slot_at_get")))))
             out.append(("the-worker-inherits-the-slot", z3.Or(*[a["req_token"].t == s_ for s_ in st.ghost.get("slots", [])])
                         if st.ghost.get("slots") else z3.BoolVal(False)))
+            if len(sp[0]) > 2:
+                from contracts.nodes_sl import _ts
+                L = st.f["worker_thread_list"]
+                out.append(("the-worker-is-listed-and-marked-processing", z3.And(
+                    L.len == 1, L.at(z3.IntVal(0)).t == sp[0][2], _ts(st, sp[0][2]) == sc("PROCESSING_STATE")), ("C17",)))
             d = st.f["processing_delay"]
             cs = st.ghost.get("consults", [])
             drawn = z3.Or(d.tag == V.T_GEN, d.tag == V.T_FUNC)
@@ -349,7 +380,7 @@ def install_behaviours(lib):
             ("start", z3.And(st.f["worker_thread_list"].len == 0, st.f["num_workers"].t == 0,
                              st.f["time_per_work_occupancy"].len == st.f["work_capacity"].t + 1,
                              st.f["time_last_occupancy_change"].t <= st.now, st.f["pallet_in_process"].isnone,
-                             st.f["item_in_process"].isnone, state_known(st)))] + acc_clauses(st),
+                             st.f["item_in_process"].isnone, state_known(st)))] + acc_clauses(st) + act_clauses(st),
         excs=[ExcCase("AssertionError", lambda c: z3.BoolVal(True), "start-up-or-user-value-rejected", unchanged=False, props=("C20",), may=True),
               ExcCase("ValueError", lambda c: z3.BoolVal(True), "start-up-rejected", unchanged=False, props=("C20",), may=True),
               ExcCase("TypeError", lambda c: z3.BoolVal(True), "user-value-not-a-number", unchanged=False, props=("C20",), may=True)],
@@ -358,7 +389,7 @@ def install_behaviours(lib):
     sb.no_frame = True
     sb.shared_fields = ACC
     sb.rely = brely
-    sb.guarantee = acc_clauses
+    sb.guarantee = lambda st: acc_clauses(st) + act_clauses(st)
     sb.nshards = 8
     sb.loops = {0: ProcLoop(lib, "Splitter", sb_fields, back=s_back, head=s_head, props=("C03", "C08", "C10", "C15"),
                             heaps=("thread_state", "selector_kind"),
@@ -422,7 +453,7 @@ def install_behaviours(lib):
                              st.f["item_in_process"].isnone, state_known(st))),
             ("A-recipe: one non-negative entry per in-edge", z3.And(
                 st.f["target_quantity_of_each_item"].len >= st.f["in_edges"].val.len)),
-            ("A-recipe.nonneg", V.forall_idx(st.f["target_quantity_of_each_item"], lambda i, q: q.t >= 0, "qty"))] + acc_clauses(st),
+            ("A-recipe.nonneg", V.forall_idx(st.f["target_quantity_of_each_item"], lambda i, q: q.t >= 0, "qty"))] + acc_clauses(st) + act_clauses(st),
         excs=[ExcCase("AssertionError", lambda c: z3.BoolVal(True), "start-up-or-user-value-rejected", unchanged=False, props=("C20",), may=True),
               ExcCase("ValueError", lambda c: z3.BoolVal(True), "start-up-rejected", unchanged=False, props=("C20",), may=True),
               ExcCase("TypeError", lambda c: z3.BoolVal(True), "user-value-not-a-number", unchanged=False, props=("C20",), may=True),
@@ -433,7 +464,7 @@ def install_behaviours(lib):
     cb.no_frame = True
     cb.shared_fields = ACC
     cb.rely = brely
-    cb.guarantee = acc_clauses
+    cb.guarantee = lambda st: acc_clauses(st) + act_clauses(st)
     cb.at_yield = c_at_yield
     cb.nshards = 8
     cb.loops = {0: ProcLoop(lib, "Combiner", cb_fields, back=c_back, head=c_head, props=("C03", "C08", "C10", "C16"),
